@@ -259,8 +259,12 @@ func (e *Enc) prelude(full bool) string {
 }
 
 func runSolver(s solverDef, file string, timeoutS int) (verdict string, out string, dur float64) {
+	return runSolverCtx(context.Background(), s, file, timeoutS)
+}
+
+func runSolverCtx(parent context.Context, s solverDef, file string, timeoutS int) (verdict string, out string, dur float64) {
 	args := s.args(file, timeoutS)
-	ctx, cancel := context.WithTimeout(context.Background(), time.Duration(timeoutS+5)*time.Second)
+	ctx, cancel := context.WithTimeout(parent, time.Duration(timeoutS+5)*time.Second)
 	defer cancel()
 	cmd := exec.CommandContext(ctx, args[0], args[1:]...)
 	var buf bytes.Buffer
@@ -270,7 +274,15 @@ func runSolver(s solverDef, file string, timeoutS int) (verdict string, out stri
 	_ = cmd.Run()
 	dur = time.Since(t0).Seconds()
 	out = buf.String()
-	first := strings.TrimSpace(strings.SplitN(out, "\n", 2)[0])
+	first := ""
+	for _, ln := range strings.Split(out, "\n") {
+		ln = strings.TrimSpace(ln)
+		if ln == "" || strings.HasPrefix(ln, "WARNING") {
+			continue
+		}
+		first = ln
+		break
+	}
 	switch first {
 	case "unsat", "sat", "unknown", "timeout":
 		return first, out, dur
@@ -322,7 +334,59 @@ func discharge(o *Obligation, prelude, weak string, opts solveOpts, idx int, int
 		defer os.Remove(file)
 	}
 	verdicts := map[string]string{}
+	if !opts.all && len(solvers) > 1 {
+		// quick tier: a short attempt with the first solver, then all solvers race (the obligation is
+		// decided by the first decisive answer; slow proofs are the unstable ones, a second engine
+		// usually decides them at once)
+		short := 3
+		if opts.timeoutS < short {
+			short = opts.timeoutS
+		}
+		v, out, d := runSolver(solvers[0], file, short)
+		o.Time += d
+		if v == "unsat" || v == "sat" {
+			o.Verdict, o.Solver = v, solvers[0].name
+		} else {
+			type res struct {
+				name, v, out string
+				d            float64
+			}
+			ctx, cancel := context.WithCancel(context.Background())
+			ch := make(chan res, len(solvers))
+			for _, sd := range solvers {
+				sd := sd
+				go func() {
+					v, out, d := runSolverCtx(ctx, sd, file, opts.timeoutS)
+					ch <- res{sd.name, v, out, d}
+				}()
+			}
+			last := res{v: v, out: out}
+			for i := 0; i < len(solvers); i++ {
+				r := <-ch
+				if r.v == "unsat" || r.v == "sat" {
+					o.Verdict, o.Solver = r.v, r.name
+					o.Time += r.d
+					last = r
+					break
+				}
+				if r.d > last.d {
+					last = r
+				}
+			}
+			cancel()
+			if o.Verdict == "" {
+				o.Time += last.d
+				o.Verdict = last.v
+				if last.v == "error" {
+					o.Model = last.out
+				}
+			}
+		}
+	}
 	for _, s := range solvers {
+		if !opts.all && len(solvers) > 1 {
+			break
+		}
 		v, out, d := runSolver(s, file, opts.timeoutS)
 		o.Time += d
 		verdicts[s.name] = v
